@@ -3,6 +3,8 @@ import Chain33Model.Model.C15
 C15 — definitions used in the property statements (abstract ledger quantities, invariants)
 and helper lemmas.  The property theorems themselves are in `Props/C15.lean`.
 -/
+set_option linter.unusedSectionVars false
+set_option linter.unusedSimpArgs false
 namespace C15
 
 /-! ## association lists -/
